@@ -342,7 +342,7 @@ func TestVerifC04ConcurrentRouteUpdates(t *testing.T) {
 		cases = append(cases, cs...)
 	}
 	if !vreport.Thorough() {
-		add(fmt.Sprintf("replace program, old and new list of length 2, every 3rd of the %d observable combinations, <=2 preemptions", len(obs22)), strided(obs22, 3, 2))
+		add(fmt.Sprintf("replace program, old and new list of length 2, every 5th of the %d observable combinations, <=2 preemptions", len(obs22)), strided(obs22, 5, 2))
 	} else {
 		add(fmt.Sprintf("replace program, old and new list of length 2, all %d observable combinations, <=2 preemptions", len(obs22)), strided(obs22, 1, 2))
 		add("the same, every 3rd combination, <=3 preemptions", strided(obs22, 3, 3))
